@@ -161,11 +161,53 @@ class Session:
             obs = observe_fn(val)
         else:
             obs = observe(val, labels=det.get("labels", "defined") == "defined", order=det.get("order", "open") == "defined")
+            if det.get("sorted"):
+                obs["sorted_ok"] = sorted_ok(val, det["sorted"])
         return Outcome("ok", obs=obs, sched=sch)
+
+    def compute_parts(self, coll, world, fuse=True, monitor=False, det=None, admission_check=False):
+        """Execute the optimized plan partition by partition and concatenate (what dask.compute(q), persist and
+        to_delayed users see).  FrameBase.compute() first collapses the plan with repartition(npartitions=1), which
+        hides inter-partition defects such as a wrong global sort order."""
+        import pandas as pd
+
+        def thunk(sch):
+            opt = coll.optimize(fuse=fuse)
+            dsk = dict(opt.__dask_graph__())
+            parts = sch.get(dsk, opt.__dask_keys__())
+            if isinstance(parts, list) and parts and isinstance(parts[0], (pd.DataFrame, pd.Series)):
+                return pd.concat(parts) if len(parts) > 1 else parts[0]
+            if isinstance(parts, list) and parts and isinstance(parts[0], pd.Index):
+                return parts[0].append(list(parts[1:])) if len(parts) > 1 else parts[0]
+            if isinstance(parts, list) and len(parts) == 1:
+                return parts[0]
+            return parts
+
+        return self.run(thunk, world, monitor=monitor, det=det, admission_check=admission_check)
 
     def compute(self, coll, world, fuse=True, monitor=True, det=None, admission_check=True):
         return self.run(lambda sch: coll.compute(scheduler=sch.get, fuse=fuse), world, monitor=monitor, det=det,
                         admission_check=admission_check)
+
+
+def sorted_ok(val, how):
+    """how = {"by": [cols] | None (index), "ascending": bool}; ties and the position of nulls are not judged."""
+    import pandas as pd
+
+    try:
+        if how.get("by") is None:
+            s = val.index.to_series().reset_index(drop=True)
+        else:
+            if isinstance(val, pd.Series):
+                s = val.reset_index(drop=True)
+            else:
+                s = val[how["by"][0]].reset_index(drop=True)
+        s = s.dropna()
+        if isinstance(s.dtype, pd.CategoricalDtype):
+            s = s.cat.codes
+        return bool(s.is_monotonic_increasing if how.get("ascending", True) else s.is_monotonic_decreasing)
+    except Exception:
+        return None
 
 
 def reference_world():
